@@ -50,8 +50,53 @@ def field(code, sig, val, big):
     return out
 
 
+def raw_field(code, sig, pos, big, rng=None):
+    """one (yv) element with an arbitrary code and a value of type `sig`, laid out from offset `pos` (a multiple of 8)"""
+    e = ">" if big else "<"
+    out = bytes([code, len(sig)]) + sig.encode() + b"\0"
+
+    def al(n):
+        nonlocal out
+        out += b"\0" * ((-(pos + len(out))) % n)
+
+    if sig == "s":
+        al(4)
+        out += struct.pack(e + "I", 3) + b"xyz\0"
+    elif sig == "u":
+        al(4)
+        out += struct.pack(e + "I", 77)
+    elif sig == "b":
+        al(4)
+        out += struct.pack(e + "I", 1)
+    elif sig == "y":
+        out += b"\x07"
+    elif sig == "t":
+        al(8)
+        out += struct.pack(e + "Q", 1 << 40)
+    elif sig == "ay":
+        al(4)
+        out += struct.pack(e + "I", 5) + b"\1\2\3\4\5"
+    elif sig == "as":
+        al(4)
+        body = struct.pack(e + "I", 1) + b"a\0" + b"\0\0" + struct.pack(e + "I", 2) + b"bc\0"
+        out += struct.pack(e + "I", len(body)) + body
+    elif sig == "(su)":
+        al(8)
+        out += struct.pack(e + "I", 1) + b"q\0" + b"\0\0" + struct.pack(e + "I", 9)
+    elif sig == "v":
+        out += b"\x01u\0"
+        al(4)
+        out += struct.pack(e + "I", 5)
+    elif sig == "g":
+        out += b"\x02ai\0"
+    elif sig == "o":
+        al(4)
+        out += struct.pack(e + "I", 2) + b"/z\0"
+    return out
+
+
 def msg(big=False, mtype=1, flags=0, serial=1, path="/a", member="m", iface=None, dest=None, sig=None, body=b"",
-        nfds=None, reply=None, body_len=None, fields_len=None, version=1, endian=None):
+        nfds=None, reply=None, body_len=None, fields_len=None, version=1, endian=None, sender=None, errname=None, extra=()):
     e = ">" if big else "<"
     fs = []
     if path is not None:
@@ -66,11 +111,18 @@ def msg(big=False, mtype=1, flags=0, serial=1, path="/a", member="m", iface=None
         fs.append(field(6, "s", dest, big))
     if sig is not None:
         fs.append(field(8, "g", sig, big))
+    if errname is not None:
+        fs.append(field(4, "s", errname, big))
+    if sender is not None:
+        fs.append(field(7, "s", sender, big))
     if nfds is not None:
         fs.append(field(9, "u", nfds, big))
     arr = b""
     for f in fs:
         arr = pad(arr, 8) + f
+    for code, xsig in extra:
+        arr = pad(arr, 8)
+        arr += raw_field(code, xsig, len(arr), big)
     eb = endian if endian is not None else (ord("B") if big else ord("l"))
     h = bytes([eb, mtype, flags, version]) + struct.pack(e + "II", len(body) if body_len is None else body_len, serial)
     h += struct.pack(e + "I", len(arr) if fields_len is None else fields_len) + arr
@@ -154,7 +206,17 @@ def rand_msg(rng, allow_fds=True, big_ok=True):
     if rng.random() < 0.1:
         kw.update(path=None, member=None, iface=None, dest=None)
         kw.pop("iface", None), kw.pop("dest", None)
+    if rng.random() < 0.15:
+        kw["flags"] = rng.choice([0x08, 0x10, 0x80, 0x09, 0xff, 0x47, 0x20]) | rng.choice([0, 0, 2, 4])   # unknown flag bits are ignored
+    if rng.random() < 0.15:
+        # header fields with codes this version does not know are skipped, whatever their (well-formed) value
+        kw["extra"] = [(rng.choice([10, 11, 16, 0x20, 0x7f, 0xff]), rng.choice(XSIGS)) for _ in range(rng.randint(1, 2))]
+    if rng.random() < 0.1:
+        kw["sender"] = ":1." + str(rng.randint(1, 99))
     return msg(**kw), k
+
+
+XSIGS = ["s", "u", "b", "y", "t", "ay", "as", "(su)", "v", "g", "o"]
 
 
 def rand_script(rng, total, errors=False):
@@ -212,7 +274,8 @@ def valid_case(rng, mode, errors=False, fds=True):
 
 def malformed_case(rng, mode):
     units = [rand_msg(rng, allow_fds=False) for _ in range(rng.randint(0, 2))]
-    kind = rng.choice(["endian", "type", "flags", "serial0", "version", "short", "long", "over", "over", "fdcount", "fdcount"])
+    kind = rng.choice(["endian", "type", "flags", "serial0", "version", "short", "long", "over", "over", "fdcount", "fdcount",
+                       "code0", "badname", "badname", "wrongtype", "unknown"])
     if rng.random() < 0.012:
         kind = "edge"       # allowed size just below the limit: the implementation really allocates 128 MiB, keep these few
     body = rand_body(rng, rng.randint(0, 40))
@@ -223,7 +286,18 @@ def malformed_case(rng, mode):
     elif kind == "type":
         m = msg(big=big, body=body, mtype=rng.choice([0, 5, 6, 255]))
     elif kind == "flags":
-        m = msg(big=big, body=body, flags=rng.choice([8, 16, 0x80, 0xff, 9]))
+        m = msg(big=big, body=body, flags=rng.choice([8, 16, 0x80, 0xff, 9]))       # accepted since 0d33c3d1
+    elif kind == "code0":
+        m = msg(big=big, body=body, extra=[(0, rng.choice(XSIGS))])                 # field code 0 stays invalid
+    elif kind == "unknown":
+        m = msg(big=big, body=body, extra=[(rng.randint(10, 255), rng.choice(XSIGS)) for _ in range(rng.randint(1, 3))])   # accepted
+    elif kind == "wrongtype":
+        m = msg(big=big, body=body, extra=[(rng.choice([1, 2, 3, 5, 8, 9]), rng.choice(["y", "t", "ay", "(su)", "b"]))])   # known code, wrong type
+    elif kind == "badname":
+        which = rng.choice(["iface", "member", "path", "dest", "sender", "errname"])
+        bad = {"iface": ["a", "a..c", ".a.c", "a.7c", ""], "member": ["a.c", "7a", "", "a-c"], "path": ["a", "/a/", "//", "/a-c", ""],
+               "dest": ["x", ":", "a..c", ""], "sender": ["a.c", "x", ":1", ""], "errname": ["a", "a.", ""]}[which]
+        m = msg(big=big, body=body, **{which: rng.choice(bad)})
     elif kind == "serial0":
         m = msg(big=big, body=body, serial=0)
     elif kind == "version":
